@@ -54,11 +54,39 @@ def _consistent(c):
     return True
 
 
+def _consensus(cs):
+    """{c + l, c + not l} -> {c}: keeps the join of the two branches of `if (b)` from fragmenting the path facts"""
+    cs = set(cs)
+    changed = True
+    while changed and len(cs) > 1:
+        changed = False
+        lst = sorted(cs, key=len)
+        for i, a in enumerate(lst):
+            for b in lst[i + 1:]:
+                if len(a) != len(b):
+                    continue
+                d = a ^ b
+                if len(d) == 2:
+                    x, y = tuple(d)
+                    if x[0] == 'l' and y[0] == 'l' and x[1] == y[1] and x[2] != y[2]:
+                        cs.discard(a)
+                        cs.discard(b)
+                        cs.add(a & b)
+                        changed = True
+                        break
+            if changed:
+                break
+    return cs
+
+
 def f_or(*fs):
     cs = []
     for f in fs:
         cs.extend(f)
-    return _absorb(cs)
+    r = _absorb(cs)
+    if len(r) > 1:
+        r = _absorb(_consensus(r))
+    return r
 
 
 def weaken(f):
@@ -843,7 +871,7 @@ class Analyzer:
                 # locals of the enclosing function keep their bindings only when they are option facts: drop all variable bindings that carry lits
                 fr.bind = {d: b for d, b in fr.bind.items() if b[0] == 'obj'}
                 self.havoc(fr, self.assigned_vars(body))
-                self.exec_stmt(body, fr, wpc, out)
+                self.exec_stmt(body, fr, wpc, out)      # (the end facts of a lambda body are irrelevant)
                 fr.in_lambda -= 1
                 self.havoc(fr, self.assigned_vars(body))
                 bind_after = fr.bind
@@ -1099,36 +1127,31 @@ class Analyzer:
         return out
 
     def exec_block_items(self, items, fr, pc, out):
-        """sequential statements with the compound-remainder rule; returns (exits, pc_at_end)"""
+        """sequential statements; returns the facts valid when control falls through the end (FF = never)"""
         cur = pc
         for s in items:
-            if not isinstance(s, dict):
+            if not isinstance(s, dict) or not s:
                 continue
             k = s.get("kind")
             if k in ("CaseStmt", "DefaultStmt"):
+                # reached by a jump from the switch head (or by fall-through): only the facts of the switch entry hold
                 cur = fr.switch_pc[-1] if fr.switch_pc else fr.entry_pc
-                self.havoc(fr, fr.switch_vars[-1] if fr.switch_vars else [])
+                self.havoc(fr, fr.switch_vars[-1] if fr.switch_vars else fr.all_assigned)
                 sub = kids(s)
-                # CaseStmt: [ConstantExpr..., substatement]; nested case labels chain through the last child
-                for c in sub[:-1]:
-                    pass
                 if sub:
-                    ex, cur = self.exec_block_items([sub[-1]], fr, cur, out)
+                    cur = self.exec_block_items([sub[-1]], fr, cur, out)
                 continue
             if k == "LabelStmt":
                 cur = fr.entry_pc
                 self.havoc(fr, fr.all_assigned)
                 if kids(s):
-                    ex, cur = self.exec_block_items([kids(s)[-1]], fr, cur, out)
+                    cur = self.exec_block_items([kids(s)[-1]], fr, cur, out)
                 continue
-            if k == "IfStmt":
-                cur = self.exec_if(s, fr, cur, out)
-                continue
-            self.exec_stmt(s, fr, cur, out)
-        return False, cur
+            cur = self.exec_stmt(s, fr, cur, out)
+        return cur
 
     def exec_if(self, s, fr, pc, out):
-        """returns the facts valid after the statement"""
+        """returns the facts valid after the statement = (facts at the end of then) OR (facts at the end of else)"""
         inner = list(s.get("inner", []))
         idx = 0
         if s.get("hasInit"):
@@ -1141,57 +1164,55 @@ class Analyzer:
         then = inner[idx + 1] if idx + 1 < len(inner) else None
         els = inner[idx + 2] if s.get("hasElse") and idx + 2 < len(inner) else None
         cb = self.eval_cond(cond, fr, pc, out)
-        bind0, ver0 = dict(fr.bind), dict(fr.ver)
+        bind0 = dict(fr.bind)
         pt, pe = pcify(cb[0]), pcify(cb[1])
+        end_t = f_and(pc, pt)
         if then is not None:
-            self.exec_stmt(then, fr, f_and(pc, pt), out)
+            end_t = self.exec_stmt(then, fr, end_t, out)
         bind_t = fr.bind
         fr.bind = dict(bind0)
+        end_e = f_and(pc, pe)
         if els is not None:
-            self.exec_stmt(els, fr, f_and(pc, pe), out)
+            end_e = self.exec_stmt(els, fr, end_e, out)
         bind_e = fr.bind
-        t_exit = self.always_exits(then) if then is not None else False
-        e_exit = self.always_exits(els) if els is not None else False
-        a_t = self.assigned_vars(then) if then is not None else set()
-        a_e = self.assigned_vars(els) if els is not None else set()
-        after = pc
-        if t_exit and not e_exit:
+        a_t = self.assigned_vars(then) if then is not None else frozenset()
+        a_e = self.assigned_vars(els) if els is not None else frozenset()
+        if end_t == FF and end_e != FF:
             fr.bind = bind_e
-            after = f_and(pc, pe)
-        elif e_exit and not t_exit:
+        elif end_e == FF and end_t != FF:
             fr.bind = bind_t
-            after = f_and(pc, pt)
         else:
-            # join: variables assigned in either branch are merged (enum) or become opaque (bool)
+            # join: variables assigned in either branch are merged (enum) or become opaque (new version)
             merged = dict(bind0)
             for did in (a_t | a_e):
                 bt, be = bind_t.get(did), bind_e.get(did)
                 if bt and be and bt[0] == 'enum' and be[0] == 'enum':
-                    merged[did] = ('enum', [(f_and(cb[0], p), l) for p, l in bt[1]] + [(f_and(cb[1], p), l) for p, l in be[1]])
-                    merged[did] = ('enum', [(p, l) for p, l in merged[did][1] if p != FF])
+                    lv = [(f_and(cb[0], p), l) for p, l in bt[1]] + [(f_and(cb[1], p), l) for p, l in be[1]]
+                    merged[did] = ('enum', [(p, l) for p, l in lv if p != FF])
                 else:
                     merged.pop(did, None)
             fr.bind = merged
             for did in (a_t | a_e):
                 if did is not None and not (did in merged and merged[did][0] == 'enum'):
                     fr.ver[did] = fr.ver.get(did, 0) + 1
-        return after
+        return f_or(end_t, end_e)
+
+    STMT_KINDS = ("CompoundStmt", "IfStmt", "DeclStmt", "ForStmt", "WhileStmt", "DoStmt", "CXXForRangeStmt", "SwitchStmt", "ReturnStmt",
+                  "CXXTryStmt", "BreakStmt", "ContinueStmt", "NullStmt", "AttributedStmt", "GotoStmt", "CaseStmt", "DefaultStmt", "LabelStmt")
 
     def exec_stmt(self, s, fr, pc, out):
+        """returns the facts valid when control falls through to the next statement (FF = it never does)"""
         if not isinstance(s, dict) or not s:
-            return
+            return pc
         if pc == FF:
-            return
+            return FF
         k = s.get("kind")
         if k == "CompoundStmt":
-            self.exec_block_items(kids(s), fr, pc, out)
-            return
+            return self.exec_block_items(kids(s), fr, pc, out)
         if k == "IfStmt":
-            self.exec_if(s, fr, pc, out)
-            return
+            return self.exec_if(s, fr, pc, out)
         if k in ("CaseStmt", "DefaultStmt", "LabelStmt"):
-            self.exec_block_items([s], fr, pc, out)
-            return
+            return self.exec_block_items([s], fr, pc, out)
         if k == "DeclStmt":
             for v in kids(s):
                 if v.get("kind") == "VarDecl":
@@ -1199,33 +1220,57 @@ class Analyzer:
                 elif v.get("kind") == "DecompositionDecl":
                     for c in kids(v):
                         self.visit_expr(c, fr, pc, out)
-            return
+            return pc
         if k in ("ForStmt", "WhileStmt", "DoStmt", "CXXForRangeStmt"):
             av = self.assigned_vars(s)
-            inner = s.get("inner", [])
-            if k == "ForStmt" and inner and isinstance(inner[0], dict) and inner[0]:
-                self.exec_stmt(inner[0], fr, pc, out) if inner[0].get("kind") == "DeclStmt" else self.visit_expr(inner[0], fr, pc, out)
-                rest = inner[1:]
+            inner = list(s.get("inner", []))
+
+            def run(c, p):
+                if not isinstance(c, dict) or not c:
+                    return p
+                if c.get("kind") in self.STMT_KINDS:
+                    return self.exec_stmt(c, fr, p, out)
+                self.visit_expr(c, fr, p, out)
+                return p
+            body_pc = pc
+            if k == "ForStmt":
+                # [init, condvar, cond, inc, body]
+                while len(inner) < 5:
+                    inner.append({})
+                run(inner[0], pc)
+                self.havoc(fr, av)
+                bind0 = dict(fr.bind)
+                run(inner[1], pc)
+                if isinstance(inner[2], dict) and inner[2]:
+                    cb = self.eval_cond(inner[2], fr, pc, out)
+                    body_pc = f_and(pc, pcify(cb[0]))
+                run(inner[4], body_pc)
+                run(inner[3], pc)
             elif k == "CXXForRangeStmt":
                 for c in inner[:-1]:
-                    if isinstance(c, dict) and c:
-                        self.exec_stmt(c, fr, pc, out) if c.get("kind") == "DeclStmt" else self.visit_expr(c, fr, pc, out)
-                rest = inner[-1:]
+                    run(c, pc)
+                self.havoc(fr, av)
+                bind0 = dict(fr.bind)
+                run(inner[-1] if inner else {}, pc)
+            elif k == "WhileStmt":
+                self.havoc(fr, av)
+                bind0 = dict(fr.bind)
+                cs = [c for c in inner if isinstance(c, dict) and c]
+                for c in cs[:-2]:
+                    run(c, pc)
+                if len(cs) >= 2:
+                    cb = self.eval_cond(cs[-2], fr, pc, out)
+                    body_pc = f_and(pc, pcify(cb[0]))
+                if cs:
+                    run(cs[-1], body_pc)
             else:
-                rest = inner
-            self.havoc(fr, av)
-            bind0 = dict(fr.bind)
-            for c in rest:
-                if not isinstance(c, dict) or not c:
-                    continue
-                if c.get("kind") in ("CompoundStmt", "IfStmt", "DeclStmt", "ForStmt", "WhileStmt", "DoStmt", "CXXForRangeStmt", "SwitchStmt",
-                                     "ReturnStmt", "CXXTryStmt", "BreakStmt", "ContinueStmt", "NullStmt", "AttributedStmt", "GotoStmt"):
-                    self.exec_stmt(c, fr, pc, out)
-                else:
-                    self.visit_expr(c, fr, pc, out)
+                self.havoc(fr, av)
+                bind0 = dict(fr.bind)
+                for c in inner:
+                    run(c, pc)
             self.havoc(fr, av)
             fr.bind = {d: b for d, b in bind0.items() if d not in av}
-            return
+            return pc
         if k == "SwitchStmt":
             av = self.assigned_vars(s)
             inner = [c for c in s.get("inner", []) if isinstance(c, dict) and c]
@@ -1236,12 +1281,14 @@ class Analyzer:
             fr.switch_vars.append(av)
             bind0 = dict(fr.bind)
             if inner:
-                self.exec_stmt(inner[-1], fr, pc, out)
+                body = inner[-1]
+                # the body is entered by a jump to a label: statements before the first label are not executed
+                self.exec_stmt(body, fr, pc, out)
             fr.switch_pc.pop()
             fr.switch_vars.pop()
             self.havoc(fr, av)
             fr.bind = {d: b for d, b in bind0.items() if d not in av}
-            return
+            return pc
         if k == "CXXTryStmt":
             inner = kids(s)
             av = self.assigned_vars(s)
@@ -1256,19 +1303,28 @@ class Analyzer:
                         self.exec_stmt(c, fr, pc, out)
             self.havoc(fr, av)
             fr.bind = {d: b for d, b in bind0.items() if d not in av}
-            return
+            return pc
         if k == "ReturnStmt":
             for c in kids(s):
                 self.visit_expr(c, fr, pc, out)
-            return
+            return FF
         if k == "AttributedStmt":
+            cur = pc
             for c in kids(s):
-                if c.get("kind", "").endswith("Stmt"):
-                    self.exec_stmt(c, fr, pc, out)
-            return
-        if k in ("BreakStmt", "ContinueStmt", "NullStmt", "GotoStmt"):
-            return
+                if c.get("kind", "") in self.STMT_KINDS or c.get("kind", "").endswith("Expr"):
+                    cur = self.exec_stmt(c, fr, cur, out)
+            return cur
+        if k in ("BreakStmt", "ContinueStmt", "GotoStmt"):
+            return FF
+        if k == "NullStmt":
+            return pc
         self.visit_expr(s, fr, pc, out)
+        t = s
+        while t.get("kind") in ("ExprWithCleanups", "ParenExpr") and kids(t):
+            t = kids(t)[0]
+        if t.get("kind") == "CXXThrowExpr":
+            return FF
+        return pc
 
     # ---- driver ------------------------------------------------------------------------------------------------------
     def run(self):
